@@ -545,6 +545,15 @@ func c03Exec(scAny any, c *simcheck.Ctx) *simcheck.Violation {
 				continue
 			}
 			c.St.Count("crash_points", 1)
+			if f := strings.Fields(res.Sim.CrashOp); len(f) > 0 {
+				c.St.Probes["died_before_"+f[0]]++
+				if strings.Contains(res.Sim.CrashOp, "index.json") {
+					c.St.Probes["died_while_writing_index_json"]++
+				}
+				if v.torn > 0 {
+					c.St.Probes["died_inside_a_write_torn"]++
+				}
+			}
 			if f := res.Sim.Failure; f != nil {
 				return narrow(simcheck.V("crash-run-"+f.Kind, "%s", f.Msg), idx)
 			}
